@@ -29,9 +29,175 @@ def _candidate_count(ctx, f, e):
     return None
 
 
+def _membership_only(f, sets, bags):
+    """the sets a provider is given are only ever asked "is this name in you?": every occurrence of a set (a set
+    parameter, an alias, an element of a list of sets) is the right operand of in / not in, an element of a list / tuple of
+    sets, an argument handed on to a local helper or appended to such a list; lists of sets are only iterated, extended,
+    tested against None.  Then the answer depends on the given sets through the membership of the candidates alone, and the
+    subsets of the first candidates are all the cases.  (A provider that sorts, measures or parses the names -- the
+    largest numeric suffix plus one -- is outside this class.)"""
+    sets, bags = set(sets), set(bags)
+    units = [f] + list(f.nested.values())
+    parent = {}
+    for g in units:
+        for n in ast.walk(g.node):
+            for c in ast.iter_child_nodes(n):
+                parent[id(c)] = n
+    for _ in range(4):
+        for g in units:
+            for n in ast.walk(g.node):
+                if isinstance(n, ast.Assign) and len(n.targets) == 1 and isinstance(n.targets[0], ast.Name):
+                    v = n.value
+                    if isinstance(v, ast.Name) and v.id in sets:
+                        sets.add(n.targets[0].id)
+                    if isinstance(v, (ast.List, ast.Tuple)) and v.elts and all(isinstance(x, ast.Name) and x.id in sets or isinstance(x, ast.Starred) and isinstance(x.value, ast.Name) and x.value.id in bags for x in v.elts):
+                        bags.add(n.targets[0].id)
+                    if isinstance(v, ast.Name) and v.id in bags:
+                        bags.add(n.targets[0].id)
+                its = []
+                if isinstance(n, ast.For):
+                    its.append((n.target, n.iter))
+                if isinstance(n, (ast.GeneratorExp, ast.ListComp, ast.SetComp)):
+                    its += [(g0.target, g0.iter) for g0 in n.generators]
+                for tg, it in its:
+                    if isinstance(it, ast.Name) and it.id in bags and isinstance(tg, ast.Name):
+                        sets.add(tg.id)
+            # parameters of local helpers that receive a set / a list of sets
+            for c in ast.walk(g.node):
+                if isinstance(c, ast.Call) and isinstance(c.func, ast.Name) and c.func.id in f.nested:
+                    h = f.nested[c.func.id]
+                    for p0, a0 in zip(h.params, c.args):
+                        if isinstance(a0, ast.Name) and a0.id in sets:
+                            sets.add(p0)
+                        if isinstance(a0, ast.Name) and a0.id in bags:
+                            bags.add(p0)
+    for g in units:
+        for n in ast.walk(g.node):
+            if not (isinstance(n, ast.Name) and isinstance(n.ctx, ast.Load) and (n.id in sets or n.id in bags)):
+                continue
+            p = parent.get(id(n))
+            ok = False
+            if isinstance(p, ast.Compare) and len(p.ops) == 1:
+                if isinstance(p.ops[0], (ast.In, ast.NotIn)) and p.comparators[0] is n and n.id in sets:
+                    ok = True
+                if isinstance(p.ops[0], (ast.Is, ast.IsNot)):
+                    ok = True
+            elif isinstance(p, (ast.For, ast.comprehension)) and p.iter is n and n.id in bags:
+                ok = True
+            elif isinstance(p, (ast.List, ast.Tuple, ast.Starred)):
+                ok = True
+            elif isinstance(p, ast.Assign) and p.value is n:
+                ok = True
+            elif isinstance(p, ast.Call) and any(a is n for a in p.args):
+                fn = p.func
+                if isinstance(fn, ast.Name) and fn.id in f.nested:
+                    ok = True
+                if isinstance(fn, ast.Attribute) and fn.attr in ('extend', 'append') and isinstance(fn.value, ast.Name) and fn.value.id in bags:
+                    ok = True
+            elif isinstance(p, ast.Attribute) and p.value is n and p.attr in ('extend', 'append') and n.id in bags:
+                ok = True
+            if not ok:
+                return False
+    return True
+
+
+def _check_provider_model(ctx, rep, f):
+    """A provider of fresh names decides by membership tests of its candidates in the sets it is given.  It is evaluated
+    (analyser's own evaluator) on every combination of subsets of its first three candidates -- found by asking it with
+    the empty universe, then with the first candidate taken, then with the first two -- and what it returns must lie
+    outside every set it was given.  Running out of candidates (an exception) is not a wrong answer.  Returns True when
+    decided, False when the provider is outside the evaluator's fragment."""
+    import itertools
+    from ..miniexec import Interp, Obj, Raised
+    from ..abseval import Unsupported as U2
+    node = f.node
+    params = [a.arg for a in node.args.args]
+    if node.args.kwonlyargs or node.args.kwarg:
+        return False
+    roles = []
+    for a in node.args.args:
+        ann = u(a.annotation) if a.annotation is not None else ''
+        if 'IdentifierGenerator' in ann or a.arg in ('id_generator', 'generator'):
+            roles.append('gen')
+        elif ann.startswith(('Set[', 'Iterable[Set', 'AbstractSet[', 'FrozenSet[')) or a.arg in ('Q', 'Sigma', 'Gamma', 'V'):
+            roles.append('set')
+        elif ann.startswith(('Iterable[str', 'Sequence[str', 'List[str', 'str')) and a.arg in ('symbols', 'candidates', 'names'):
+            roles.append('cands')
+        elif ann in ('str',) or a.arg in ('hint', 'prefix'):
+            roles.append('hint')
+        else:
+            roles.append(None)
+    ndefaults = len(node.args.defaults)
+    required = len(params) - ndefaults
+    extra_sets = 2 if node.args.vararg is not None else 0
+    if ('set' not in roles[:required] and not extra_sets) or any(r is None for r in roles[:required]):
+        return False
+    nsets = roles[:required].count('set') + extra_sets
+    if not _membership_only(f, [p0 for p0, r0 in zip(params, roles) if r0 == 'set'], ([node.args.vararg.arg] if node.args.vararg is not None else []) +
+                            [a.arg for a in node.args.args if a.annotation is not None and u(a.annotation).replace('Optional[', '').startswith(('Iterable[Set', 'List[Set', 'Sequence[Set'))]):
+        return False
+
+    def gen_stub(interp, args, kwargs):
+        g = args[0]
+        g._f['index'] = g._f.get('index', 0) + 1
+        return '{}{}'.format(args[1] if len(args) > 1 else 'q', g._f['index'] - 1)
+
+    def run(sets):
+        args, k = [], 0
+        for r in roles[:required]:
+            if r == 'set':
+                args.append(set(sets[k])); k += 1
+            elif r == 'gen':
+                args.append(Obj('IdentifierGenerator', index=0))
+            elif r == 'cands':
+                args.append('xyzw')
+            else:
+                args.append('h')
+        args += [set(x) for x in sets[k:]]
+        it = Interp(ctx, stubs={'IdentifierGenerator.generate': gen_stub}, max_steps=4000)
+        return it.call(f, args)
+    try:
+        names = []
+        for _ in range(3):
+            try:
+                r = run([set(names)] + [set()] * (nsets - 1))
+            except Raised:
+                break
+            if not isinstance(r, str) or r in names:
+                if isinstance(r, str) and r in names:
+                    rep.violates(RULE + '.provider', f, 'def ' + f.name, 'asked for a name outside {} the provider returns {!r} (finite-model evaluation): the "fresh" name coincides with an existing one'.format(sorted(names), r))
+                    return True
+                return False
+            names.append(r)
+        if not names:
+            return False
+        subsets = [set(c) for k in range(len(names) + 1) for c in itertools.combinations(names, k)]
+        cases = 0
+        for combo in itertools.product(subsets, repeat=nsets):
+            cases += 1
+            try:
+                r = run(list(combo))
+            except Raised:
+                continue
+            if r is None or not isinstance(r, str):
+                rep.violates(RULE + '.provider', f, 'def ' + f.name, 'with the sets {} the provider returns {!r} instead of a name'.format([sorted(c) for c in combo], r))
+                return True
+            hit = [sorted(c) for c in combo if r in c]
+            if hit:
+                rep.violates(RULE + '.provider', f, 'def ' + f.name, 'with the sets {} the provider returns {!r}, which is an element of {} (finite-model evaluation over the subsets of its first candidates {}): the "fresh" name can coincide with an existing one'.format(
+                    [sorted(c) for c in combo], r, hit[0], names))
+                return True
+    except (U2, RecursionError):
+        return False
+    rep.holds(RULE + '.provider', f, 'def ' + f.name, 'on all {} combinations of subsets of its first candidates {} the returned name lies outside every set the provider was given (finite-model evaluation)'.format(cases, names))
+    return True
+
+
 def check_provider(ctx, rep, f):
     """every returned candidate is dominated by `candidate not in universe`; an implicit fall-off (returning None)
     is only tolerated when a dominating guard makes it infeasible by counting"""
+    if _check_provider_model(ctx, rep, f):
+        return
     fx = ctx.facts(f)
     cfg = fx.cfg
     ma = must_atoms(fx)
@@ -251,6 +417,28 @@ def check_introductions(ctx, rep, f):
             # the introduced name is bound on several paths: each binding must be a fresh name
             defs = single_def(g, name_expr.id)
             if len(defs) >= 2:
+                # only the bindings that REACH this site count:  A = table.get(k);  if A is None: A = fresh(); V.add(A)
+                stmts_of = {}
+                for s0 in walk_no_nested(g.node):
+                    if isinstance(s0, (ast.Assign, ast.AnnAssign)) and getattr(s0, 'value', None) is not None:
+                        for d in defs:
+                            if s0.value is d:
+                                stmts_of[id(d)] = s0
+                if len(stmts_of) == len(defs):
+                    try:
+                        nsite = cfg.n_of(st)
+                        nodes = {id(d): cfg.n_of(stmts_of[id(d)]) for d in defs}
+                        reaching = []
+                        for d in defs:
+                            others = frozenset(n0 for k0, n0 in nodes.items() if k0 != id(d) and n0 != nodes[id(d)])
+                            if nodes[id(d)] == nsite or nsite in cfg.reachable(nodes[id(d)], avoid=others):
+                                reaching.append(d)
+                        defs = reaching or defs
+                    except Exception:
+                        pass
+                if len(defs) == 1:
+                    prov = _provenance(ctx, g, defs[0])
+            if prov is None and len(defs) >= 2:
                 provs = [(d, _provenance(ctx, g, d)) for d in defs]
                 if any(p is not None for _, p in provs) and any(p is None for _, p in provs):
                     bad_def = [d for d, p in provs if p is None][0]
@@ -283,6 +471,18 @@ def check_introductions(ctx, rep, f):
         cal = ctx.callee(g, call)
         uarg = call.args[0] if call.args else None
         uni = _set_terms(g, uarg) | {u(uarg)} if uarg is not None else set()
+        if cal is not None and cal.node.args.vararg is not None:
+            # provider(id_generator, N1.Q, N2.Q): the sets are handed over one by one (*state_sets)
+            fixed = len(cal.node.args.args)
+            for extra in call.args[fixed:]:
+                if not isinstance(extra, ast.Starred):
+                    uni |= _set_terms(g, extra) | {u(extra)}
+            for i0, a0 in enumerate(cal.node.args.args):
+                ann0 = u(a0.annotation) if a0.annotation is not None else ''
+                if i0 < len(call.args) and ann0.startswith('Set[') and i0 > 0:
+                    uni |= _set_terms(g, call.args[i0]) | {u(call.args[i0])}
+            if uarg is not None and cal.node.args.args and 'Set[' not in (u(cal.node.args.args[0].annotation) if cal.node.args.args[0].annotation is not None else 'Set[') :
+                uni -= {u(uarg)}
         if cal is not None and cal.name == 'cfg_fresh_variable' and uarg is not None:
             uni |= {u(uarg) + '.V'}
         need = {t for t in universe_terms if t != u(name_expr)}
@@ -806,4 +1006,45 @@ def check_word_symbols(ctx, rep, funcs, rule='R-EPS.word'):
                     else:
                         rep.violates(rule, f, e, 'the symbol `{}` is taken from the keys of the transition relation (`{}`), which include the epsilon symbol of the {}, and is appended to a word without a test: '
                                      'a silent move is spelled out as a letter, so words containing the epsilon symbol are produced (invisible while epsilon is the empty string)'.format(sym, u(it), '/'.join(sorted(kinds))))
+    return n
+
+
+def check_rekey_sites(ctx, rep, funcs, rule='R-EPS.rekey'):
+    """_add_nfa_transitions(delta, X, e) copies the transitions of the operand X and re-keys X's epsilon moves with e.  A
+    construction that merges SEVERAL operands into one transition map must hand every copy the one epsilon of the
+    result; `X.epsilon` -- the operand's own epsilon, i.e. no translation -- for each of several operands leaves the
+    epsilon moves of the later operands under a symbol that is not the epsilon of the result."""
+    n = 0
+    for g in funcs:
+        sites = []
+        for c in walk_no_nested(g.node):
+            if isinstance(c, ast.Call) and ctx.callee_name(g, c) == '_add_nfa_transitions' and len(c.args) >= 3:
+                sites.append(c)
+        if not sites:
+            continue
+        # how many operands are merged here?
+        operands = set()
+        for c in sites:
+            X = c.args[1]
+            several = False
+            if isinstance(X, ast.Name):
+                for lp in walk_no_nested(g.node):
+                    if isinstance(lp, ast.For) and isinstance(lp.target, ast.Name) and lp.target.id == X.id and any(x is c for x in ast.walk(lp)) \
+                            and isinstance(lp.iter, (ast.Tuple, ast.List)) and len(lp.iter.elts) >= 2:
+                        several = True
+                        operands |= {u(e0) for e0 in lp.iter.elts}
+            if not several:
+                operands.add(u(X))
+        for c in sites:
+            X, e = c.args[1], c.args[2]
+            er = resolve_alias(g, e) if isinstance(e, ast.Name) else e
+            own = isinstance(er, ast.Attribute) and er.attr == 'epsilon' and u(er.value) == u(X)
+            in_loop_over_operands = isinstance(X, ast.Name) and any(isinstance(lp, ast.For) and isinstance(lp.target, ast.Name) and lp.target.id == X.id and any(x is c for x in ast.walk(lp))
+                                                                     and isinstance(lp.iter, (ast.Tuple, ast.List)) and len(lp.iter.elts) >= 2 for lp in walk_no_nested(g.node))
+            n += 1
+            if own and len(operands) >= 2 and in_loop_over_operands:
+                rep.violates(rule, g, c, 'the transitions of each of the operands {} are copied under that operand\'s own epsilon ({}): the epsilon moves of an operand whose epsilon differs from the epsilon of the result are kept under an ordinary symbol (or an undeclared one)'.format(
+                    sorted(operands), u(e)))
+            else:
+                rep.holds(rule, g, c, 'the copy is re-keyed with {}'.format(u(er)), nontrivial=False)
     return n
